@@ -370,11 +370,12 @@ func ccbProxyCase(label string, reply string, msg string, hello ccbGreet, old []
 	id, _ := ccb.GenerateConnectID()
 	env := claimEnv{id: id, old: old}
 	rc, bc := net.Pipe()
-	timeout := 3 * time.Second
-	if hello.Class == "silent" && reply == "ok" {
-		timeout = 40 * time.Millisecond
-	}
-	ctx, cancel := context.WithTimeout(bg, timeout)
+	// a silent hello after a success reply: the library waits for a hello that never comes and is
+	// ended through its context. The cancel is tied to the EVENT "the reply has been consumed" (net.Pipe
+	// is synchronous: Write returns when the library has read every byte), not to a clock that might
+	// run out before the reply was even read on a busy machine.
+	silentOK := hello.Class == "silent" && reply == "ok"
+	ctx, cancel := context.WithTimeout(bg, ccbIOBound)
 	defer cancel()
 	type res struct {
 		conn net.Conn
@@ -416,9 +417,13 @@ func ccbProxyCase(label string, reply string, msg string, hello ccbGreet, old []
 			_ = bc.Close()
 			return
 		}
-		_ = bc.SetWriteDeadline(time.Now().Add(time.Second))
+		_ = bc.SetWriteDeadline(time.Now().Add(ccbIOBound))
 		if _, err := bc.Write(append(pre, b...)); err != nil {
 			return
+		}
+		if silentOK {
+			time.Sleep(2 * time.Millisecond) // let it park in the read of the hello (either way it must end with the context's error)
+			cancel()
 		}
 		if after != "open" {
 			_ = bc.Close()
@@ -427,7 +432,7 @@ func ccbProxyCase(label string, reply string, msg string, hello ccbGreet, old []
 	var r res
 	select {
 	case r = <-resCh:
-	case <-time.After(5 * time.Second):
+	case <-time.After(3 * ccbIOBound):
 		o.violations = append(o.violations, Violation{Property: "C19", Key: "C19:ccb-proxy-hung", What: "proxyRequestOnStream did not return", Ops: o.cs.Ops})
 	}
 	_ = bc.Close()
@@ -630,9 +635,9 @@ func ccbDialCase(sp ccbDialSpec, old []string) *ccbOut {
 	winB, winK := -1, -1
 	if conn != nil {
 		tokn := []byte(fmt.Sprintf("verif-token-%d", t0.UnixNano()))
-		_ = conn.SetWriteDeadline(time.Now().Add(time.Second))
+		_ = conn.SetWriteDeadline(time.Now().Add(ccbIOBound))
 		_, _ = conn.Write(tokn)
-		deadline := time.Now().Add(2 * time.Second)
+		deadline := time.Now().Add(ccbIOBound)
 	search:
 		for time.Now().Before(deadline) {
 			for _, b := range w.brokers {
@@ -1333,6 +1338,26 @@ func runCcb(c *Ctx) error {
 		}(i)
 	}
 	wg.Wait()
+	// A dial case runs on real sockets and the library's own clocks, six at a time: a finding is judged
+	// only after the case, run again ON ITS OWN, shows it again (the scripted brokers make the case
+	// deterministic up to scheduling; a defect of the library is there the second time too).
+	for i := range dres {
+		first := dres[i]
+		if first == nil || len(first.violations) == 0 || int(ccbViolations.Load())-len(first.violations) >= ccbEnough {
+			continue
+		}
+		ccbViolations.Add(-int32(len(first.violations)))
+		again := ccbDialCase(specs[i], old)
+		if again != nil && len(again.cs.Ops) > 0 {
+			again.count("dial:violation-rechecked-alone")
+			if len(again.violations) == 0 {
+				again.count("dial:violation-not-reproduced-alone")
+			}
+			dres[i] = again
+		} else {
+			ccbViolations.Add(int32(len(first.violations)))
+		}
+	}
 	outs = append(outs, dres...)
 	// "unguessable" on the Dial path: the ids that really travelled to the brokers, not ids obtained by
 	// calling the generator directly
